@@ -34,8 +34,8 @@ RULE = ('one run = one seeded FileStorage history with packs and reopens; '
         'non-trivial = the index variant differs from the newest index or '
         'the image has an unfinished tail; distinct = hash of (data file, '
         'index bytes, mode)')
-BUDGET = {'quick': {'runs': 1200, 'wall': 300, 'chunk': 10},
-          'thorough': {'runs': 24000, 'wall': 3000, 'chunk': 10}}
+BUDGET = {'quick': {'runs': 1600, 'wall': 300, 'chunk': 10},
+          'thorough': {'runs': 100000, 'wall': 2400, 'chunk': 20}}
 ASSUMPTIONS = [
     'bit damage inside an index file is outside the property (the format '
     'carries no checksum); only truncation and staleness are injected',
